@@ -14,6 +14,7 @@ import (
 	"github.com/kardiachain/go-kardia/kai/kaidb"
 	"github.com/kardiachain/go-kardia/kai/kaidb/memorydb"
 	"github.com/kardiachain/go-kardia/kai/state/cstate"
+	"github.com/kardiachain/go-kardia/lib/autofile"
 	"github.com/kardiachain/go-kardia/lib/common"
 	"github.com/kardiachain/go-kardia/lib/crypto"
 	"github.com/kardiachain/go-kardia/lib/log"
@@ -120,6 +121,7 @@ type NodeOpts struct {
 	Config    func(*configs.ConsensusConfig)
 	RecordDB  bool // record durable units (C05)
 	NoKey     bool // observer (no validator key)
+	WALHeadLimit int64    // file WAL: head size limit (forces rotation; checked deterministically by CheckWALRotation)
 	MemWAL    interface{} // in-memory WAL to reuse across a clean restart (internal)
 	PoolCfg   *tx_pool.TxPoolConfig
 }
@@ -246,9 +248,23 @@ func BuildNode(idx int, g *genesis.Genesis, key *ecdsa.PrivateKey, base kaidb.Da
 	n.Tick = NewVTicker()
 	n.WAL = &RecWAL{tr: tr, dur: n.Dur, seen: make(chan int, 64)}
 	if o.FileWAL {
-		inner, err := n.CS.OpenWAL(cfg.WalFile())
-		if err != nil {
-			return nil, fmt.Errorf("open wal: %w", err)
+		var inner consensus.WAL
+		if o.WALHeadLimit > 0 {
+			bw, err := consensus.NewWAL(cfg.WalFile(), autofile.GroupHeadSizeLimit(o.WALHeadLimit), autofile.GroupCheckDuration(time.Hour))
+			if err != nil {
+				return nil, fmt.Errorf("open wal: %w", err)
+			}
+			bw.SetLogger(logger)
+			if err := bw.Start(); err != nil {
+				return nil, fmt.Errorf("start wal: %w", err)
+			}
+			inner = bw
+		} else {
+			w, err := n.CS.OpenWAL(cfg.WalFile())
+			if err != nil {
+				return nil, fmt.Errorf("open wal: %w", err)
+			}
+			inner = w
 		}
 		n.WAL.inner = inner
 		n.WAL.path = cfg.WalFile()
@@ -436,4 +452,20 @@ func WriteWALImage(dir string, data []byte) error {
 		return err
 	}
 	return os.WriteFile(filepath.Join(dir, "cs.wal", "wal"), data, 0600)
+}
+
+
+// CheckWALRotation runs the WAL group's limit check (what its ticker does periodically) and records a rotation
+// as a durable unit.
+func (n *Node) CheckWALRotation() {
+	bw, ok := n.WAL.inner.(*consensus.BaseWAL)
+	if !ok || n.WAL.path == "" {
+		return
+	}
+	count := func() int { e, _ := os.ReadDir(filepath.Dir(n.WAL.path)); return len(e) }
+	before := count()
+	bw.Group().VerifCheckLimits()
+	if count() != before {
+		n.WAL.syncPoint("walsync rotate")
+	}
 }
